@@ -16,7 +16,7 @@ ASSUMPTIONS = ['free-threaded CPython builds and pre-emption inside a bytecode a
 def run(ctx):
     import sched, lib
     quick = ctx.tier == 'quick'
-    n, bad, herr, jobs = sched.run(ctx.seed, n_classes=12 if quick else 80, max_points=40 if quick else 200, all_points=False)
+    n, bad, herr, jobs = sched.run(ctx.seed, n_classes=24 if quick else 120, max_points=48 if quick else 240, all_points=False)
     if herr and len(herr) > n // 5:
         raise RuntimeError('schedule harness errors: %r' % herr[0])
     violations = []
